@@ -142,7 +142,7 @@ def _msg_shards():
 @harness(
     "C16",
     shards=_msg_shards,
-    timeout=(90, 600),
+    timeout=(150, 600),
     findings=["C16-empty-data-set-flag"],
     functions=["dimse:DIMSEServiceProvider.send_msg", "dimse_messages:DIMSEMessage.primitive_to_message",
                "dimse_messages:DIMSEMessage.encode_msg", "dimse_messages:DIMSEMessage._generate_pdv_fragments",
